@@ -55,6 +55,11 @@ func sameIdSet(a, b []uuid.UUID) bool {
 
 // checkState compares everything observable about the stored points with the model.
 func checkState(s *drive.Shard, m *model.Collection, pool []uuid.UUID) error {
+	return checkStateSampled(s, m, pool, pool)
+}
+
+// checkStateSampled: as checkState, with the one-at-a-time reads by id restricted to byId.
+func checkStateSampled(s *drive.Shard, m *model.Collection, pool, byId []uuid.UUID) error {
 	cnt, err := s.PointCount()
 	if err != nil {
 		return fmt.Errorf("Info: %v", err)
@@ -94,7 +99,7 @@ func checkState(s *drive.Shard, m *model.Collection, pool []uuid.UUID) error {
 		}
 	}
 	// reads by id, one at a time
-	for _, id := range pool {
+	for _, id := range byId {
 		rows, err := s.Search(models.SearchRequest{
 			Query:  models.Query{Property: "_id", String: &models.SearchStringOptions{Value: id.String(), Operator: models.OperatorEquals}},
 			Select: []string{"*"},
